@@ -52,7 +52,10 @@ LEVEL_TEXT = ("Seeded (old, committed, new) triples produced by two "
               "resolver call checked against an executable merge "
               "specification (decision, exact merged state, reason class) "
               "and against the other implementation (decision, reason "
-              "code, state); fixed malformed states injected. Sampling.")
+              "code, state); fixed malformed states injected; triples in "
+              "which a side wrote its node back unaltered handed to the "
+              "resolver directly (multi-leaf states must still be refused). "
+              "Sampling.")
 
 OVERLAP = frozenset(range(1, 10))
 
